@@ -187,18 +187,56 @@ Definition Inv (st : db) : Prop :=
 
 (* operations the theorems quantify over: stamps are representable non-negative int64
    values and no data file reaches 2^32 bytes (pointer offsets are uint32 in the Go code) *)
+Definition wop_in_range (x : wop) : Prop :=
+  match x with
+  | WOpen _ s e _ => ts_in_range s /\ ts_in_range e
+  | WCommit _ e _ => ts_in_range e
+  | WWrite _ _ | WClose _ => True
+  end.
+Definition write_fits (st : db) (w : N) (d : list N) : Prop :=
+  forall wr f, d_writers st !! w = Some wr -> get_file (d_files st) (w_file wr) = Some f ->
+               (f_size f + N.of_nat (length d) < 2 ^ 32)%N.
+Definition wlegal (st : db) (x : wop) : Prop :=
+  wop_in_range x /\ match x with WWrite w d => write_fits st w d | _ => True end.
+Fixpoint wlegal_run (st : db) (ws : list wop) : Prop :=
+  match ws with
+  | [] => True
+  | x :: rest => wlegal st x /\ wlegal_run (fst (wstep st x)) rest
+  end.
+
+(* Side conditions of a delete with writer operations inside its resolvers: the nested
+   operations are legal where they run, and they leave the two domains the delete has
+   already captured (the one holding its start, the one holding its end) as they were —
+   i.e. the concurrent commits insert new domains or extend domains other than those
+   two.  (unary.DB.delete's control gate keeps writers on the deleted range out.) *)
+Definition delc_legal (st : db) (a b : Z) (sops eops : list wop) : Prop :=
+  match delete_start lin_resolver (d_ptrs st) a with
+  | inl (Some (sd, s, so, a')) =>
+      let called1 := snd (usearch (d_ptrs st) (ts_span_range a 0)) in
+      let st1 := if called1 then wrun st sops else st in
+      (called1 = true -> wlegal_run st sops) /\
+      match delete_end lin_resolver (d_ptrs st1) b with
+      | inl (Some (ed, e, eo, b')) =>
+          let called2 := snd (usearch (d_ptrs st1) (ts_span_range b 0)) in
+          let st2 := if called2 then wrun st1 eops else st1 in
+          (called2 = true -> wlegal_run st1 eops) /\ In s (d_ptrs st2) /\ In e (d_ptrs st2)
+      | _ => True
+      end
+  | _ => True
+  end.
+
 Definition op_in_range (o : op) : Prop :=
   match o with
   | Open _ s e _ => ts_in_range s /\ ts_in_range e
   | Commit _ e _ => ts_in_range e
-  | Delete a b => ts_in_range a /\ ts_in_range b
+  | Delete a b | DeleteC a b _ _ => ts_in_range a /\ ts_in_range b
   | Write _ _ | Close _ => True
   end.
 Definition legal (st : db) (o : op) : Prop :=
   op_in_range o /\
   match o with
-  | Write w d => forall wr f, d_writers st !! w = Some wr -> get_file (d_files st) (w_file wr) = Some f ->
-                              (f_size f + N.of_nat (length d) < 2 ^ 32)%N
+  | Write w d => write_fits st w d
+  | DeleteC a b sops eops => delc_legal st a b sops eops
   | _ => True
   end.
 Fixpoint legal_run (st : db) (ops : list op) : Prop :=
@@ -265,7 +303,7 @@ Proof.
   destruct (d_writers st !! w) as [wr|] eqn:Ew; [|exact HI].
   destruct (w_closed wr); [exact HI|].
   destruct (get_file (d_files st) (w_file wr)) as [f|] eqn:Ef; [|exact HI].
-  simpl. specialize (Hleg wr f eq_refl Ef).
+  simpl. specialize (Hleg wr f Ew Ef).
   destruct (get_file_Some _ _ _ Ef) as [_ Hin].
   rewrite Forall_forall in Hfo. pose proof (Hfo _ Hin) as Hf. rewrite <- Forall_forall in Hfo.
   set (f' := mkFile (f_data f ++ d) (f_off f) (f_len f + N.of_nat (length d))%N (f_inuse f)).
@@ -563,10 +601,165 @@ Proof.
   - intros H. destruct (Heo H) as (? & ? & ? & _). auto.
 Qed.
 
+(* ------------------------------------------------------------------ writers acting during a delete *)
+Lemma wstep_inv st x : Inv st -> wlegal st x -> Inv (fst (wstep st x)).
+Proof.
+  intros HI [Hr Hl]. destruct x as [w s e k|w d|w e k|w]; simpl.
+  - destruct Hr. apply open_inv; assumption.
+  - apply write_inv; [assumption|]. split; [exact I|exact Hl].
+  - apply commit_inv; assumption.
+  - apply close_inv; assumption.
+Qed.
+
+Lemma wrun_inv : forall ws st, Inv st -> wlegal_run st ws -> Inv (wrun st ws).
+Proof.
+  induction ws as [|x rest IH]; intros st HI Hl; simpl; [assumption|].
+  destruct Hl as [Hl Hrest]. apply IH; [apply wstep_inv; assumption|assumption].
+Qed.
+
+Lemma wtrace_inv : forall ws st, Inv st -> wlegal_run st ws -> Forall (fun sr => Inv (fst sr)) (wtrace st ws).
+Proof.
+  induction ws as [|x rest IH]; intros st HI Hl; simpl; [constructor|].
+  destruct Hl as [Hl Hrest]. constructor; [apply wstep_inv; assumption|].
+  apply IH; [apply wstep_inv; assumption|assumption].
+Qed.
+
+Lemma ptr_eqb_eq p q : ptr_eqb p q = true <-> p = q.
+Proof.
+  unfold ptr_eqb. rewrite !andb_true_iff, tr_eqb_eq, !N.eqb_eq. destruct p, q; simpl. split.
+  - intros [[[-> ->] ->] ->]. reflexivity.
+  - intros H. inversion H. auto.
+Qed.
+
+Lemma overlaps_with_refl tr : overlaps_with tr tr = true.
+Proof. unfold overlaps_with. rewrite (proj2 (tr_eqb_eq tr tr) eq_refl). reflexivity. Qed.
+
+(* in a well-formed index a stored pointer overlapping a stored pointer is that pointer *)
+Lemma idx_ok_overlap_same ps i x s :
+  idx_ok ps -> getp ps i = Some x -> In s ps -> overlaps_with (p_tr x) (p_tr s) = true -> x = s.
+Proof.
+  intros Hok Hi Hin Hov. destruct (In_getp _ _ Hin) as [j Hj].
+  pose proof (idx_ok_wf _ _ _ Hok Hi) as [Hxr Hxlt]. pose proof (idx_ok_wf _ _ _ Hok Hj) as [Hsr Hslt].
+  unfold p_start, p_end in *.
+  apply overlaps_with_spec in Hov; try assumption; try lia. unfold overlaps_math in Hov.
+  destruct (Z.lt_trichotomy i j) as [H|[H|H]].
+  - pose proof (idx_ok_lookup_lt _ Hok i j x s Hi Hj H). unfold p_start, p_end in *. lia.
+  - subst j. congruence.
+  - pose proof (idx_ok_lookup_lt _ Hok j i s x Hj Hi H). unfold p_start, p_end in *. lia.
+Qed.
+
+Lemma usearch_stored ps s : idx_ok ps -> In s ps ->
+  exists i, usearch ps (p_tr s) = (i, true) /\ getp ps i = Some s.
+Proof.
+  intros Hok Hin. destruct (In_getp _ _ Hin) as [j Hj]. pose proof (idx_ok_wf _ _ _ Hok Hj) as [Hr Hlt].
+  assert (Hord : tr_start (p_tr s) <= tr_end (p_tr s)) by (unfold p_start, p_end in *; lia).
+  pose proof (usearch_spec ps (p_tr s) Hok Hr Hord) as Hs.
+  pose proof (usearch_finds ps (p_tr s) s Hok Hr Hord Hin (overlaps_with_refl _)) as Hf.
+  destruct (usearch ps (p_tr s)) as [i ex]. simpl in Hf. subst ex. destruct Hs as (x & Hx & Hov).
+  exists i. split; [reflexivity|]. rewrite Hx. f_equal. eapply idx_ok_overlap_same; eauto.
+Qed.
+
+(* the re-resolution finds the captured pointers again, wherever concurrent commits moved them *)
+Lemma repechage_start_finds ps sd s : idx_ok ps -> In s ps -> getp ps (repechage_start ps sd s) = Some s.
+Proof.
+  intros Hok Hin. unfold repechage_start. destruct (usearch_stored ps s Hok Hin) as (i & Hu & Hg).
+  rewrite Hu. destruct (getp ps sd) as [x|] eqn:E; [|assumption].
+  destruct (ptr_eqb x s) eqn:Eq; [|assumption]. apply ptr_eqb_eq in Eq. subst. assumption.
+Qed.
+Lemma repechage_end_finds ps ed e : idx_ok ps -> In e ps -> getp ps (repechage_end ps ed e) = Some e.
+Proof.
+  intros Hok Hin. unfold repechage_end. destruct (usearch_stored ps e Hok Hin) as (i & Hu & Hg).
+  rewrite Hu. simpl. destruct (getp ps ed) as [x|] eqn:E; [|assumption].
+  destruct (ptr_eqb x e) eqn:Eq; [|assumption]. apply ptr_eqb_eq in Eq. subst. assumption.
+Qed.
+
+Lemma delete_start_getp rs ps a sd s so a' :
+  delete_start rs ps a = inl (Some (sd, s, so, a')) -> getp ps sd = Some s.
+Proof.
+  unfold delete_start. destruct (usearch ps (ts_span_range a 0)) as [sd0 [|]].
+  - destruct (getp ps sd0) as [x|] eqn:E; [|discriminate]. destruct (rs (p_start x) a) as [[? ?]|]; [|discriminate].
+    intros H. inversion H; subst. assumption.
+  - simpl. destruct (sd0 + 1 =? zlen ps); [discriminate|].
+    destruct (getp ps (sd0 + 1)) eqn:E; [|discriminate]. intros H. inversion H; subst. assumption.
+Qed.
+Lemma delete_end_getp re ps b ed e eo b' :
+  delete_end re ps b = inl (Some (ed, e, eo, b')) -> getp ps ed = Some e.
+Proof.
+  unfold delete_end. destruct (usearch ps (ts_span_range b 0)) as [ed0 [|]].
+  - destruct (getp ps ed0) as [x|] eqn:E; [|discriminate]. destruct (re (p_start x) b) as [[? ?]|]; [|discriminate].
+    intros H. inversion H; subst. assumption.
+  - destruct (ed0 =? -1); [discriminate|].
+    destruct (getp ps ed0) eqn:E; [|discriminate]. intros H. inversion H; subst. assumption.
+Qed.
+
+Lemma with_ptrs_id st : with_ptrs st (d_ptrs st) = st.
+Proof. destruct st; reflexivity. Qed.
+
+(* without concurrent commits the re-resolution is the identity and DeleteC is Delete *)
+Lemma delete_c_nil st a b : fst (delete_c st a b [] []) = step st (Delete a b).
+Proof.
+  unfold delete_c. simpl. unfold delete.
+  destruct (delete_start lin_resolver (d_ptrs st) a) as [[[[[sd s] so] a']|]|r] eqn:Es;
+    try (simpl; rewrite with_ptrs_id; reflexivity).
+  assert (Hst1 : (if (usearch (d_ptrs st) (ts_span_range a 0)).2 then st else st) = st)
+    by (destruct ((usearch (d_ptrs st) (ts_span_range a 0)).2); reflexivity).
+  rewrite !Hst1.
+  assert (Hst2 : (if (usearch (d_ptrs st) (ts_span_range b 0)).2 then st else st) = st)
+    by (destruct ((usearch (d_ptrs st) (ts_span_range b 0)).2); reflexivity).
+  rewrite !Hst2.
+  destruct (delete_end lin_resolver (d_ptrs st) b) as [[[[[ed e] eo] b']|]|r] eqn:Ee;
+    try (simpl; rewrite with_ptrs_id; reflexivity).
+  pose proof (delete_start_getp _ _ _ _ _ _ _ Es) as Hs.
+  pose proof (delete_end_getp _ _ _ _ _ _ _ Ee) as He.
+  unfold repechage_start, repechage_end. rewrite Hs, He.
+  rewrite (proj2 (ptr_eqb_eq s s) eq_refl), (proj2 (ptr_eqb_eq e e) eq_refl).
+  destruct (delete_apply _ _ _ _ _ _ _ _ _) as [ps' r]. reflexivity.
+Qed.
+
+(* DeleteC keeps the invariant: the nested writer operations do (they are ordinary steps),
+   and the delete proper is applied to the captured pointers at their re-resolved
+   positions in the index as it is under the write lock. *)
+Lemma delete_c_inv st a b sops eops :
+  Inv st -> ts_in_range a -> ts_in_range b -> delc_legal st a b sops eops ->
+  Inv (fst (fst (delete_c st a b sops eops))) /\
+  Forall (fun sr => Inv (fst sr)) (snd (delete_c st a b sops eops)).
+Proof.
+  intros HI Ha Hb Hl. unfold delete_c, delc_legal in *.
+  destruct (delete_start lin_resolver (d_ptrs st) a) as [[[[[sd s] so] a']|]|r] eqn:Es;
+    [|simpl; auto|simpl; auto].
+  destruct Hl as [Hl1 Hl].
+  pose proof HI as (Hidx0 & _).
+  destruct (delete_start_spec _ _ _ _ _ _ Hidx0 Ha Es) as (Hgs & Ha' & Hso & _ & _).
+  set (called1 := snd (usearch (d_ptrs st) (ts_span_range a 0))) in *.
+  set (st1 := if called1 then wrun st sops else st) in *.
+  assert (HI1 : Inv st1) by (unfold st1; destruct called1; [apply wrun_inv; auto|assumption]).
+  assert (Htr1 : Forall (fun sr => Inv (fst sr)) (if called1 then wtrace st sops else [])).
+  { destruct called1; [apply wtrace_inv; auto|constructor]. }
+  destruct (delete_end lin_resolver (d_ptrs st1) b) as [[[[[ed e] eo] b']|]|r] eqn:Ee;
+    [|simpl; auto|simpl; auto].
+  destruct Hl as (Hl2 & Hins & Hine).
+  pose proof HI1 as (Hidx1 & _).
+  destruct (delete_end_spec _ _ _ _ _ _ Hidx1 Hb Ee) as (Hge & Hb' & Heo & _).
+  set (called2 := snd (usearch (d_ptrs st1) (ts_span_range b 0))) in *.
+  set (st2 := if called2 then wrun st1 eops else st1) in *.
+  assert (HI2 : Inv st2) by (unfold st2; destruct called2; [apply wrun_inv; auto|assumption]).
+  assert (Htr2 : Forall (fun sr => Inv (fst sr)) (if called2 then wtrace st1 eops else [])).
+  { destruct called2; [apply wtrace_inv; auto|constructor]. }
+  pose proof HI2 as (Hidx2 & Hpf2 & Hfo2 & Hfs2 & Hw2).
+  pose proof (repechage_start_finds (d_ptrs st2) sd s Hidx2 Hins) as Hs2.
+  pose proof (repechage_end_finds (d_ptrs st2) ed e Hidx2 Hine) as He2.
+  pose proof (delete_apply_inv (d_files st2) (d_ptrs st2) _ s so a' _ e eo b' Hidx2 Hpf2 Hfs2 Hs2 Ha'
+                ltac:(intros H; destruct (Hso H) as (? & ? & ? & _); auto) He2 Hb'
+                ltac:(intros H; destruct (Heo H) as (? & ? & ? & _); auto)) as [H1 H2].
+  destruct (delete_apply (d_ptrs st2) _ s so a' _ e eo b') as [ps' r]. simpl in *.
+  split; [|apply Forall_app; split; assumption].
+  split; [assumption|]. split; [assumption|]. split; [assumption|]. split; assumption.
+Qed.
+
 (* ------------------------------------------------------------------ every step, every history *)
 Lemma step_inv st o : Inv st -> legal st o -> Inv (fst (step st o)).
 Proof.
-  intros HI Hl. destruct o as [w s e k|w d|w e k|w|a b]; simpl.
+  intros HI Hl. destruct o as [w s e k|w d|w e k|w|a b|a b sops eops]; simpl.
   - destruct Hl as [[Hs He] _]. apply open_inv; assumption.
   - apply write_inv; assumption.
   - destruct Hl as [He _]. apply commit_inv; assumption.
@@ -575,6 +768,14 @@ Proof.
     pose proof (delete_lin_inv (d_files st) (d_ptrs st) a b Hidx Hpf Hfs Ha Hb) as [H1 H2].
     destruct (delete lin_resolver lin_resolver (d_ptrs st) a b) as [ps' r]. simpl in *.
     split; [assumption|]. split; [assumption|]. split; [assumption|]. split; assumption.
+  - destruct Hl as [[Ha Hb] Hd]. apply delete_c_inv; assumption.
+Qed.
+
+(* the states in which the operations nested in a DeleteC leave the database *)
+Lemma step_nested_inv st o : Inv st -> legal st o -> Forall (fun sr => Inv (fst sr)) (step_nested st o).
+Proof.
+  intros HI Hl. destruct o; simpl; try constructor.
+  destruct Hl as [[Ha Hb] Hd]. apply delete_c_inv; assumption.
 Qed.
 
 Theorem run_inv : forall ops st, Inv st -> legal_run st ops -> Inv (run st ops).
@@ -592,14 +793,26 @@ Proof.
 Qed.
 
 (* ------------------------------------------------------------------ clean failure *)
-Lemma with_ptrs_id st : with_ptrs st (d_ptrs st) = st.
-Proof. destruct st; reflexivity. Qed.
-
 (* An operation that returns an error (or addresses a non-existent writer) changes nothing
    at all: pointers, files, writers. *)
-Lemma step_fail_unchanged st o st' r : step st o = (st', r) -> r <> ROk -> st' = st.
+Definition nested_free (o : op) : Prop :=
+  match o with DeleteC _ _ sops eops => sops = [] /\ eops = [] | _ => True end.
+
+Lemma step_fail_unchanged st o st' r : nested_free o -> step st o = (st', r) -> r <> ROk -> st' = st.
 Proof.
-  destruct o as [w s e k|w d|w e k|w|a b]; simpl.
+  intros Hnf. assert (Hdel : forall a b, step st (Delete a b) = (st', r) -> r <> ROk -> st' = st).
+  { intros a b. simpl.
+    destruct (delete lin_resolver lin_resolver (d_ptrs st) a b) as [ps' r'] eqn:Ed.
+    intros H Hr. inversion H; subst. clear H.
+    assert (ps' = d_ptrs st); [|subst; apply with_ptrs_id].
+    unfold delete in Ed.
+    destruct (delete_start _ _ _) as [[[[[sd s] so] a']|]|r0]; [|inversion Ed; auto|inversion Ed; auto].
+    destruct (delete_end _ _ _) as [[[[[ed e] eo] b']|]|r0]; [|inversion Ed; auto|inversion Ed; auto].
+    unfold delete_apply in Ed. destruct (validate_delete _ _ _ _ _) as [[[ok ie] so'] eo'].
+    destruct ok; simpl in Ed; inversion Ed; subst; auto. congruence. }
+  destruct o as [w s e k|w d|w e k|w|a b|a b sops eops];
+    [| | | |apply Hdel|destruct Hnf as [-> ->]; change (step st (DeleteC a b [] [])) with (fst (delete_c st a b [] []));
+                       rewrite delete_c_nil; apply Hdel]; simpl.
   - unfold open_writer. destruct (d_writers st !! w); [intros H; inversion H; auto|].
     destruct (negb (cfg_validate s e)); [intros H; inversion H; auto|].
     destruct (idx_overlap _ _); [intros H; inversion H; auto|].
@@ -620,14 +833,46 @@ Proof.
     + intros H; inversion H; subst. congruence.
   - unfold close_writer. destruct (d_writers st !! w) as [wr|]; [|intros H; inversion H; auto].
     destruct (w_closed wr); intros H; inversion H; subst; auto; congruence.
-  - destruct (delete lin_resolver lin_resolver (d_ptrs st) a b) as [ps' r'] eqn:Ed.
-    intros H Hr. inversion H; subst. clear H.
-    assert (ps' = d_ptrs st); [|subst; apply with_ptrs_id].
-    unfold delete in Ed.
-    destruct (delete_start _ _ _) as [[[[[sd s] so] a']|]|r0]; [|inversion Ed; auto|inversion Ed; auto].
-    destruct (delete_end _ _ _) as [[[[[ed e] eo] b']|]|r0]; [|inversion Ed; auto|inversion Ed; auto].
-    unfold delete_apply in Ed. destruct (validate_delete _ _ _ _ _) as [[[ok ie] so'] eo'].
-    destruct ok; simpl in Ed; inversion Ed; subst; auto. congruence.
+Qed.
+
+Lemma last_cons_default {A} (l : list A) : forall x d, last (x :: l) d = last l x.
+Proof. induction l as [|y l IH]; intros x d; [reflexivity|]. change (last (y :: l) d = last (y :: l) x). rewrite !IH. reflexivity. Qed.
+
+Lemma wtrace_last : forall ws st, last (map fst (wtrace st ws)) st = wrun st ws.
+Proof.
+  induction ws as [|x rest IH]; intros st; [reflexivity|].
+  simpl wtrace. simpl map. rewrite last_cons_default. simpl wrun. apply IH.
+Qed.
+
+Lemma last_app_default {A} (l1 l2 : list A) d : last (l1 ++ l2) d = last l2 (last l1 d).
+Proof.
+  revert d. induction l1 as [|x l IH]; intros d; [reflexivity|].
+  simpl app. rewrite !last_cons_default. apply IH.
+Qed.
+
+(* A DeleteC that returns an error leaves the database as the writer operations nested in
+   it left it: the delete proper changed nothing. *)
+Lemma delete_c_fail st a b sops eops :
+  let '(st', r, tr) := delete_c st a b sops eops in r <> ROk -> st' = last (map fst tr) st.
+Proof.
+  unfold delete_c.
+  destruct (delete_start lin_resolver (d_ptrs st) a) as [[[[[sd s] so] a']|]|r] eqn:Es;
+    [|intros; reflexivity|intros; reflexivity].
+  set (called1 := snd (usearch (d_ptrs st) (ts_span_range a 0))).
+  set (st1 := if called1 then wrun st sops else st).
+  set (tr1 := if called1 then wtrace st sops else []).
+  assert (H1 : last (map fst tr1) st = st1).
+  { unfold tr1, st1. destruct called1; [apply wtrace_last|reflexivity]. }
+  destruct (delete_end lin_resolver (d_ptrs st1) b) as [[[[[ed e] eo] b']|]|r] eqn:Ee;
+    [|intros; symmetry; assumption|intros; symmetry; assumption].
+  set (called2 := snd (usearch (d_ptrs st1) (ts_span_range b 0))).
+  set (st2 := if called2 then wrun st1 eops else st1).
+  set (tr2 := if called2 then wtrace st1 eops else []).
+  assert (H2 : last (map fst (tr1 ++ tr2)) st = st2).
+  { unfold tr2, st2. destruct called2; [|rewrite app_nil_r; assumption].
+    rewrite map_app, last_app_default, H1. apply wtrace_last. }
+  unfold delete_apply. destruct (validate_delete _ _ _ _ _) as [[[ok ie] so'] eo'].
+  destruct ok; simpl; intros Hr; [congruence|]. rewrite with_ptrs_id. symmetry. assumption.
 Qed.
 
 (* ------------------------------------------------------------------ the iterator sees everything *)
@@ -837,7 +1082,7 @@ Lemma noncommit_preserves_readable st o :
 Proof.
   intros HI Ho. pose proof HI as (Hidx & Hpf & Hfo & Hfs & Hw).
   assert (Hgoal : d_ptrs (fst (step st o)) = d_ptrs st /\ files_le (d_files st) (d_files (fst (step st o)))).
-  { destruct o as [w s e k|w d|w e k|w|a b]; try contradiction; simpl.
+  { destruct o as [w s e k|w d|w e k|w|a b|a b sops eops]; try contradiction; simpl.
     - unfold open_writer. destruct (d_writers st !! w); [split; [reflexivity|apply files_le_refl]|].
       destruct (negb (cfg_validate s e)); [split; [reflexivity|apply files_le_refl]|].
       destruct (idx_overlap _ _); [split; [reflexivity|apply files_le_refl]|].
@@ -854,24 +1099,55 @@ Proof.
 Qed.
 
 (* ------------------------------------------------------------------ decidable legality *)
+Definition wop_in_rangeb (x : wop) : bool :=
+  match x with
+  | WOpen _ s e _ => ts_in_rangeb s && ts_in_rangeb e
+  | WCommit _ e _ => ts_in_rangeb e
+  | WWrite _ _ | WClose _ => true
+  end.
+Definition write_fitsb (st : db) (w : N) (d : list N) : bool :=
+  match d_writers st !! w with
+  | Some wr => match get_file (d_files st) (w_file wr) with
+               | Some f => (f_size f + N.of_nat (length d) <? 2 ^ 32)%N
+               | None => true
+               end
+  | None => true
+  end.
+Definition wlegalb (st : db) (x : wop) : bool :=
+  wop_in_rangeb x && match x with WWrite w d => write_fitsb st w d | _ => true end.
+Fixpoint wlegal_runb (st : db) (ws : list wop) : bool :=
+  match ws with
+  | [] => true
+  | x :: rest => wlegalb st x && wlegal_runb (fst (wstep st x)) rest
+  end.
+Definition delc_legalb (st : db) (a b : Z) (sops eops : list wop) : bool :=
+  match delete_start lin_resolver (d_ptrs st) a with
+  | inl (Some (sd, s, so, a')) =>
+      let called1 := snd (usearch (d_ptrs st) (ts_span_range a 0)) in
+      let st1 := if called1 then wrun st sops else st in
+      (negb called1 || wlegal_runb st sops) &&
+      match delete_end lin_resolver (d_ptrs st1) b with
+      | inl (Some (ed, e, eo, b')) =>
+          let called2 := snd (usearch (d_ptrs st1) (ts_span_range b 0)) in
+          let st2 := if called2 then wrun st1 eops else st1 in
+          (negb called2 || wlegal_runb st1 eops) &&
+          existsb (fun x => ptr_eqb x s) (d_ptrs st2) && existsb (fun x => ptr_eqb x e) (d_ptrs st2)
+      | _ => true
+      end
+  | _ => true
+  end.
 Definition op_in_rangeb (o : op) : bool :=
   match o with
   | Open _ s e _ => ts_in_rangeb s && ts_in_rangeb e
   | Commit _ e _ => ts_in_rangeb e
-  | Delete a b => ts_in_rangeb a && ts_in_rangeb b
+  | Delete a b | DeleteC a b _ _ => ts_in_rangeb a && ts_in_rangeb b
   | Write _ _ | Close _ => true
   end.
 Definition legalb (st : db) (o : op) : bool :=
   op_in_rangeb o &&
   match o with
-  | Write w d =>
-      match d_writers st !! w with
-      | Some wr => match get_file (d_files st) (w_file wr) with
-                   | Some f => (f_size f + N.of_nat (length d) <? 2 ^ 32)%N
-                   | None => true
-                   end
-      | None => true
-      end
+  | Write w d => write_fitsb st w d
+  | DeleteC a b sops eops => delc_legalb st a b sops eops
   | _ => true
   end.
 Fixpoint legal_runb (st : db) (ops : list op) : bool :=
@@ -880,12 +1156,49 @@ Fixpoint legal_runb (st : db) (ops : list op) : bool :=
   | o :: rest => legalb st o && legal_runb (fst (step st o)) rest
   end.
 
+Lemma write_fitsb_sound st w d : write_fitsb st w d = true -> write_fits st w d.
+Proof.
+  unfold write_fitsb, write_fits. intros H wr f Hw Hf. rewrite Hw, Hf in H. apply N.ltb_lt. assumption.
+Qed.
+
+Lemma wlegalb_sound st x : wlegalb st x = true -> wlegal st x.
+Proof.
+  unfold wlegalb, wlegal. rewrite andb_true_iff. intros [Hr Hw]. split.
+  - destruct x; simpl in *; try exact I;
+      repeat rewrite andb_true_iff in Hr; repeat rewrite ts_in_rangeb_spec in Hr; assumption.
+  - destruct x; try exact I. apply write_fitsb_sound. assumption.
+Qed.
+
+Lemma wlegal_runb_sound : forall ws st, wlegal_runb st ws = true -> wlegal_run st ws.
+Proof.
+  induction ws as [|x rest IH]; intros st H; simpl in *; [exact I|].
+  apply andb_true_iff in H. destruct H as [H1 H2]. split; [apply wlegalb_sound; assumption|apply IH; assumption].
+Qed.
+
+Lemma existsb_ptr_eqb_In ps s : existsb (fun x => ptr_eqb x s) ps = true -> In s ps.
+Proof.
+  rewrite existsb_exists. intros (x & Hin & He). apply ptr_eqb_eq in He. subst. assumption.
+Qed.
+
+Lemma delc_legalb_sound st a b sops eops : delc_legalb st a b sops eops = true -> delc_legal st a b sops eops.
+Proof.
+  unfold delc_legalb, delc_legal.
+  destruct (delete_start lin_resolver (d_ptrs st) a) as [[[[[sd s] so] a']|]|r]; try (intros; exact I).
+  rewrite andb_true_iff. intros [H1 H2]. split.
+  - intros Hc. rewrite Hc in H1. simpl in H1. apply wlegal_runb_sound. assumption.
+  - destruct (delete_end lin_resolver _ b) as [[[[[ed e] eo] b']|]|r]; try exact I.
+    rewrite !andb_true_iff in H2. destruct H2 as [[H2 H3] H4]. split; [|split].
+    + intros Hc. rewrite Hc in H2. simpl in H2. apply wlegal_runb_sound. assumption.
+    + apply existsb_ptr_eqb_In. assumption.
+    + apply existsb_ptr_eqb_In. assumption.
+Qed.
+
 Lemma legalb_sound st o : legalb st o = true -> legal st o.
 Proof.
   unfold legalb, legal. rewrite andb_true_iff. intros [Hr Hw]. split.
   - destruct o; simpl in *; try exact I;
       repeat rewrite andb_true_iff in Hr; repeat rewrite ts_in_rangeb_spec in Hr; assumption.
-  - destruct o; try exact I. intros wr f Hwr Hf. rewrite Hwr, Hf in Hw. apply N.ltb_lt. assumption.
+  - destruct o; try exact I; [apply write_fitsb_sound|apply delc_legalb_sound]; assumption.
 Qed.
 
 Lemma legal_runb_sound : forall ops st, legal_runb st ops = true -> legal_run st ops.
@@ -904,6 +1217,12 @@ Definition Coh (st : db) : Prop := map_Forall (fun _ wr => own_present (d_ptrs s
 Definition gated (st : db) (o : op) : Prop :=
   match o with
   | Delete _ b => map_Forall (fun _ wr => w_closed wr = false -> b <= w_start wr) (d_writers st)
+  | DeleteC _ b sops eops =>
+      (* no writer acts during a gated delete: the gate covers [a, b) and writers hold
+         [start, MAX), so only writers starting at or after b could, and the coherence
+         proof below does not need them *)
+      sops = [] /\ eops = [] /\
+      map_Forall (fun _ wr => w_closed wr = false -> b <= w_start wr) (d_writers st)
   | _ => True
   end.
 Fixpoint gated_run (st : db) (ops : list op) : Prop :=
@@ -1011,7 +1330,16 @@ Qed.
 Lemma step_coh st o : Inv st -> legal st o -> gated st o -> Coh st -> Coh (fst (step st o)).
 Proof.
   intros HI Hl Hg HC. pose proof HI as (Hidx & Hpf & Hfo & Hfs & Hw).
-  destruct o as [w s e k|w d|w e k|w|a b]; simpl.
+  assert (Hdel : forall a b, ts_in_range a -> ts_in_range b ->
+            map_Forall (fun _ wr => w_closed wr = false -> b <= w_start wr) (d_writers st) ->
+            Coh (fst (step st (Delete a b)))).
+  { intros a b Ha Hb Hg'. simpl.
+    destruct (delete lin_resolver lin_resolver (d_ptrs st) a b) as [ps' r] eqn:Ed. unfold Coh. simpl.
+    intros w0 wr0 Hw0 Hc Hp. destruct (HC w0 wr0 Hw0 Hc Hp) as (own & Hin & Hs).
+    pose proof (Hg' w0 wr0 Hw0 Hc) as Hb0.
+    destruct (delete_keeps_after (d_files st) (d_ptrs st) a b own Hidx Hpf Hfs Ha Hb Hin ltac:(lia)) as (own' & Hin' & Hs').
+    rewrite Ed in Hin'. simpl in Hin'. exists own'. split; [assumption|congruence]. }
+  destruct o as [w s e k|w d|w e k|w|a b|a b sops eops]; simpl.
   - unfold open_writer. destruct (d_writers st !! w); [exact HC|].
     destruct (negb (cfg_validate s e)); [exact HC|]. destruct (idx_overlap _ _); [exact HC|].
     destruct (acquire _ _ _) as [[k' size] fs']. unfold Coh. simpl.
@@ -1055,12 +1383,8 @@ Proof.
   - unfold close_writer. destruct (d_writers st !! w) as [wr|] eqn:Ew; [|exact HC].
     destruct (w_closed wr); [exact HC|]. unfold Coh. simpl.
     apply map_Forall_insert_2; [|exact HC]. intros Hc. simpl in Hc. discriminate.
-  - destruct Hl as [[Ha Hb] _]. simpl in Hg.
-    destruct (delete lin_resolver lin_resolver (d_ptrs st) a b) as [ps' r] eqn:Ed. unfold Coh. simpl.
-    intros w0 wr0 Hw0 Hc Hp. destruct (HC w0 wr0 Hw0 Hc Hp) as (own & Hin & Hs).
-    pose proof (Hg w0 wr0 Hw0 Hc) as Hb0.
-    destruct (delete_keeps_after (d_files st) (d_ptrs st) a b own Hidx Hpf Hfs Ha Hb Hin ltac:(lia)) as (own' & Hin' & Hs').
-    rewrite Ed in Hin'. simpl in Hin'. exists own'. split; [assumption|congruence].
+  - destruct Hl as [[Ha Hb] _]. apply (Hdel a b Ha Hb Hg).
+  - destruct Hl as [[Ha Hb] _]. destruct Hg as (-> & -> & Hg). rewrite delete_c_nil. apply (Hdel a b Ha Hb Hg).
 Qed.
 
 Theorem run_coh : forall ops st,
